@@ -358,6 +358,11 @@ class IOPort(BaseIOPort):
         # protects it, so leave checking and popping to the input port.
         return self.input.receive(block=block)
 
+    def __iter__(self):
+        # The input port knows when it has closed (by itself, too) and
+        # ends the iteration then; this wrapper would only see an error.
+        return iter(self.input)
+
 
 class EchoPort(BaseIOPort):
     def _send(self, message):
